@@ -145,7 +145,10 @@ def canonicalise(facts):
         for name in by_canon.get(cname, []):
             b = facts.thir[name]
             mapping = {}
-            for p, want in zip(b["params"], spec.get("params", [])):
+            # positional names only when the signature still has the reviewed number of parameters (an inserted parameter
+            # would shift every name); otherwise the source names are kept
+            pspec = spec.get("params", []) if len(spec.get("params", [])) == len(b["params"]) else []
+            for p, want in zip(b["params"], pspec):
                 pat = p.get("pat") or {}
                 if want and pat.get("k") == "Bind" and "#" in pat.get("name", ""):
                     old = pat["name"]
